@@ -4,10 +4,13 @@
 # runs the given checks (quick tier), and reverts /repo. Prints one line per check.
 set -u
 cd /verif; . ./env.sh
+# runs against a changed tree must not leave their evidence behind
+rm -rf .build/evidence.keep; cp -r evidence .build/evidence.keep 2>/dev/null
+restore_evidence() { if [ -d .build/evidence.keep ]; then rm -rf evidence; mv .build/evidence.keep evidence; fi; }
 P="$1"; shift
 git -C /repo diff --quiet || { echo "repo dirty"; exit 2; }
 git -C /repo apply "$P" || { echo "patch does not apply"; exit 2; }
-trap 'git -C /repo checkout -- . ; git -C /repo clean -fdq' EXIT
+trap 'git -C /repo checkout -- . ; git -C /repo clean -fdq; restore_evidence' EXIT
 if (cd /repo && go build ./... && go test -vet=off -count=1 ./... >/tmp/trymut.test 2>&1); then echo "baseline tests: PASS (mutant survives the suite)"; else echo "baseline tests: FAIL (mutant is caught by the suite)"; tail -5 /tmp/trymut.test; fi
 for c in "$@"; do
   out=$(VERIF_TIER=${VERIF_TIER:-quick} ./run.sh $c ${VERIF_TIER:-quick} 2>&1); rc=$?
